@@ -103,6 +103,16 @@ CHECKS["C13"] = dict(
     note=E2NOTE,
 )
 
+CHECKS["C09"] = dict(
+    engine=E2, category="model_checking", design="§3 C09",
+    technique="symbolic execution of serialize() and of loads() on its output for API-built programs whose numeric values are signed z3 variables in typed proxies; z3 decides re-loaded != original; bounded automata query (z3) for the lexeme lemma",
+    text="Programs are built through the API from proxies of every supported kind and NumPy/Python type tag in positional, keyword, mode and option position; the real "
+         "serialize() prints them (placeholder lexemes, sign forks), the real loads() re-parses the text, and z3 decides for all values whether the re-loaded program "
+         "differs. The lexeme lemma (every printed int/float/complex text is one token of that kind, strings <= M) is a bounded automata query; special floats "
+         "(negative zero, subnormal, 1e+-300) are concrete instantiations.",
+    note=E2NOTE,
+)
+
 NOT_YET = "check not built yet in this round (see DESIGN.md §3 for the plan); not claimed"
 
 
